@@ -111,7 +111,7 @@ func JSONWriteIRIProp(b *[]byte, n string, i LinkOrIRI) (notEmpty bool) {
 }
 
 func JSONWriteItemProp(b *[]byte, n string, i Item) (notEmpty bool) {
-	if i == nil {
+	if IsNil(i) {
 		return notEmpty
 	}
 	if im, ok := i.(json.Marshaler); ok {
